@@ -5,6 +5,12 @@
                      | S <bytes:var:short:verif>.. | PS <round>=<bytes:var,..>.. | SN <snapshot>
      FF <hist> <case> <victim> <kind> <rid> | R <reset> | K <sets> => <class> <noop> <post>
      NF <hist> <case> <kind> | RESP <rid|->.. | R <reset> | K <sets> => <class|none> <restores> <snap|-> <noop> <babbling>
+     FS <hist> <seq> <step> <victim> <kind> <rid> | R <reset> | K <sets> | G <genesis> => <class> <noop> <post>
+     NS <hist> <seq> <step> <kind> | RESP <rid|->.. | R <reset> | K <sets> | G <genesis> | RF <0|1>
+                                   => <class|none|restore-error> <restores> <snap|-> <noop> <babbling>
+       steps of a SEQUENCE of calls on one core / Node: the model is folded over the sequence (its core /
+       node state persists from step to step); after an adopted step the known sets predicted by
+       known_after are compared with the K of the next step (kind FSK / NSK).
    Fields the model leaves unspecified are printed "-" by the model and not compared.
    NOTE lines report the cases the current rule accepts and the repaired rule refuses. *)
 open Zutil
@@ -96,6 +102,21 @@ let compare_fields check kind raw (impl : string list) (model : string list) =
 let seg_val segs tag = match Stdlib.List.find_opt (fun s -> match s with t :: _ -> t = tag | [] -> false) segs with
   | Some (_ :: r) -> r | _ -> []
 
+(* sequences: model state per (history, sequence) and the known sets predicted after an adoption *)
+let core_states : (string, core_state) Hashtbl.t = Hashtbl.create 256
+let node_states : (string, node_state) Hashtbl.t = Hashtbl.create 256
+let predicted : (string, BinNums.coq_Z list list) Hashtbl.t = Hashtbl.create 256
+
+let canon_sets (k : BinNums.coq_Z list list) : string =
+  Stdlib.String.concat ";" (Stdlib.List.sort_uniq compare
+    (map (fun l -> Stdlib.String.concat "," (map zs l)) k))
+
+(* the K of this step must be what known_after predicted when the previous step adopted a response *)
+let check_predicted check kind raw key (known : BinNums.coq_Z list list) =
+  match Hashtbl.find_opt predicted key with
+  | Some p -> Hashtbl.remove predicted key; check kind raw (canon_sets known) (canon_sets p)
+  | None -> ()
+
 let handle check diff (toks : string list) (raw : string) : bool =
   match toks with
   | ["FFMODE"; m] -> rule := parse_rule m; true
@@ -153,5 +174,56 @@ let handle check diff (toks : string list) (raw : string) : bool =
      | _, _ -> ());
     (if Stdlib.List.length nsc.ns_app > Stdlib.List.length nsf.ns_app then
        Printf.printf "NOTE nf-fixed-does-not-restore %s %s node %s\n" hid cid kind);
+    true
+  | "FS" :: hid :: sq :: step :: vkind :: mkind :: rid :: "|" :: rest ->
+    let (segs, impl) = segments rest in
+    (match Hashtbl.find_opt resps (hid ^ "/" ^ rid) with
+     | None -> diff "FS" raw "case" "no FR line for this response"; true
+     | Some d ->
+       let key = "c" ^ hid ^ "/" ^ sq in
+       let reset = match seg_val segs "R" with [r] -> z r | _ -> z "1" in
+       let known = match seg_val segs "K" with [k] -> parse_known k | _ -> [] in
+       let genesis = match seg_val segs "G" with [g] -> zlist g | _ -> [] in
+       check_predicted check "FSK" raw key known;
+       let st = if step = "1" then core0 else (match Hashtbl.find_opt core_states key with Some s -> s | None -> core0) in
+       let f = frame_of d reset in
+       let (r, st') = core_ff_gen !rule known st d.blk f in
+       Hashtbl.replace core_states key st';
+       (match r with FFOk -> Hashtbl.replace predicted key (known_after genesis f) | _ -> Hashtbl.remove predicted key);
+       let noop = match r with FFOk -> "-" | _ -> if st' = st then "1" else "0" in
+       let post = match r with
+         | FFOk -> Printf.sprintf "%s:%s:%s:%s" (zs d.blk.fb_index) (zs d.blk.fb_rr)
+                     (keys_str st'.cs_validators) (keys_str st'.cs_peers)
+         | _ -> "-" in
+       ignore vkind; ignore mkind;
+       compare_fields check "FS" raw impl [class_str r; noop; post]; true)
+  | "NS" :: hid :: sq :: step :: kind :: "|" :: rest ->
+    let (segs, impl) = segments rest in
+    let key = "n" ^ hid ^ "/" ^ sq in
+    let reset = match seg_val segs "R" with [r] -> z r | _ -> z "1" in
+    let known = match seg_val segs "K" with [k] -> parse_known k | _ -> [] in
+    let genesis = match seg_val segs "G" with [g] -> zlist g | _ -> [] in
+    let restore_ok = (match seg_val segs "RF" with ["1"] -> false | _ -> true) in
+    let answers = map (fun rid ->
+        if rid = "-" then None else
+          match Hashtbl.find_opt resps (hid ^ "/" ^ rid) with
+          | None -> failwith ("NS refers to unknown response " ^ rid)
+          | Some d -> Some { r_block = d.blk; r_frame = frame_of d reset; r_snapshot = d.snap })
+        (seg_val segs "RESP") in
+    check_predicted check "NSK" raw key known;
+    let ns0 = { ns_core = core0; ns_app = []; ns_babbling = false } in
+    let ns = if step = "1" then ns0 else (match Hashtbl.find_opt node_states key with Some s -> s | None -> ns0) in
+    let (r, ns') = node_step_gen !rule known ns answers restore_ok in
+    Hashtbl.replace node_states key ns';
+    (match r, best_response answers with
+     | NRes FFOk, Some x -> Hashtbl.replace predicted key (known_after genesis x.r_frame)
+     | _ -> Hashtbl.remove predicted key);
+    let cls = match r with NNone -> "none" | NRestoreFailed -> "restore-error" | NRes x -> class_str x in
+    let nres = string_of_int (Stdlib.List.length ns'.ns_app - Stdlib.List.length ns.ns_app) in
+    let snap = if Stdlib.List.length ns'.ns_app > Stdlib.List.length ns.ns_app
+      then (match ns'.ns_app with s :: _ -> zs s | [] -> "-") else "-" in
+    let noop = match r with NRes FFOk -> "-" | _ -> if ns'.ns_core = ns.ns_core then "1" else "0" in
+    ignore kind;
+    compare_fields check "NS" raw impl [cls; nres; snap; noop; (if ns'.ns_babbling then "1" else "0")];
     true
   | _ -> false
